@@ -178,7 +178,9 @@ def run_case(ctx, case):
     ctx.count("contract_evals_in_domain", after - before)
     ctx.count("max_batch", 0)
     sample = [(repr(x), repr(e), fmt(x, e)) for x, e in pairs[:3]] if nviol == 0 else None
-    contracts.drain()
+    for rec in contracts.drain():           # (the three example strings are judged like every other call)
+        if rec["contract"] == "format_number_with_error":
+            ctx.violation({"gen": case["gen"], "x_err": rec.get("args")}, rec["msg"], {"api": "format_number_with_error", "oracle": "reads-back", "stratum": "examples"})
     ctx.observe({"gen": case["gen"], "batch": case.get("batch"), "n": len(pairs)},
                 key=(case["gen"], case.get("batch")), nontrivial=True,
                 info={"inputs": len(pairs), "examples_x_err_string": sample})
